@@ -192,6 +192,18 @@ def source_name(pkg, modname):
     return fname
 
 
+def decl_order(pkg):
+    """struct names in the TEXTUAL order of render_go: a grouped declaration stands where its first struct stood"""
+    groups = pkg.get("groups") or []
+    res = []
+    for sd in pkg["structs"]:
+        if sd["name"] in res:
+            continue
+        g = next((g for g in groups if sd["name"] in g["names"]), None)
+        res += [x["name"] for x in pkg["structs"] if x["name"] in g["names"]] if g else [sd["name"]]
+    return res
+
+
 def add_groups(rng, pkg, p=0.12):
     """with probability p put 2..3 consecutive comment-less, non-generic structs into one grouped declaration, with
     a type-level directive on the group half of the time"""
